@@ -1004,6 +1004,31 @@ func runRandomAlgebra(r *mon.Report, rng *rand.Rand) {
 		r.Violate("requirements-add-differs-from-intersection:"+"random/"+c.class(), fmt.Sprintf("NewRequirements({%s}).Get(key) differs from the folded intersection", c), cs, nil)
 		return
 	}
+	// serialization round trip: the selector entries written for the key (what ends up in NodeClaim.spec.requirements),
+	// read back and intersected again, admit exactly the same values. (An unsatisfiable conjunction is written as
+	// DoesNotExist: the recorded representation finding; it is not judged here.)
+	if !want.without(nP).zero() {
+		ser := rs.NodeSelectorRequirements()
+		back := scheduling.NewNodeSelectorRequirementsWithMinValues(ser...)
+		r.Inc("serialization_roundtrip_checks")
+		var got bits
+		if back.Has(keyCustom) {
+			got = realBits(back.Get(keyCustom), probes)
+		} else {
+			for i := 0; i < nP; i++ { // no entry for the key at all: unconstrained
+				got.set(i)
+			}
+		}
+		if got != b1 {
+			d := firstDiff(got, b1, nP)
+			var entries []string
+			for _, e := range ser {
+				entries = append(entries, fmt.Sprintf("%s %s %v", e.Key, e.Operator, e.Values))
+			}
+			r.Violate("serialization-roundtrip-changes-admitted-values:"+"random/"+c.class(), fmt.Sprintf("{%s} is written as %v; read back it admits %q = %v, before serialization %v", c, entries, probes[d], got.has(d), b1.has(d)), cs, map[string]any{"inMemory": f1.String(), "readBack": back.String()})
+			return
+		}
+	}
 	// overlap between two random halves
 	cut := 1 + rng.Intn(n-1)
 	left, right := foldRandom(rng, qs[:cut]), foldRandom(rng, qs[cut:])
